@@ -106,6 +106,15 @@ def judgeRefusal (r : Reaction) : Option (String × String) :=
     some ("amplification", s!"{r.sent.foldl (· + ·) 0} bytes sent in answer to {r.requestBytes} bytes")
   else none
 
+/-- while the peer sends nothing the server sends nothing: every reply answers a received
+ClientHello (one reply per hello, bytes out ≤ bytes in), so a single hello from a spoofed
+address cannot draw a series of replies -/
+def judgeSilence (r : Reaction) : Option (String × String) :=
+  if r.keyOps != 0 then some ("private-key-before-cookie", s!"{r.keyOps} private-key operations before a valid cookie")
+  else if r.sent != [] then
+    some ("unsolicited-reply", s!"{r.sent.length} datagrams ({r.sent.foldl (· + ·) 0} bytes) sent while the peer was silent")
+  else none
+
 /-- a datagram the server must ignore (wrong source address): nothing is sent, nothing computed -/
 def judgeIgnored (r : Reaction) : Option (String × String) :=
   if r.sent != [] then some ("answers-foreign-address", "a datagram from another address was answered")
